@@ -368,10 +368,179 @@ class P(Property):
                 out.append(line(role, 1, 4, '0', pre + evs))
         return out
 
+
+    def gen_many(self, tier, rng, n):
+        """5..12 streams, at least 4 of them silent (announced, type not complete, still open) AHEAD of the control stream"""
+        out = []
+        for _ in range(n):
+            role = rng.choice('sc')
+            g = rng.choice([0, 1])
+            ids = peer_ids(role) + [peer_ids(role)[-1] + 4 * k for k in range(1, 8)]
+            rng.shuffle(ids)
+            nsilent = rng.randint(4, 8)
+            evs = []
+            if rng.random() < 0.5:
+                evs.append('P')
+            k = 0
+            for _i in range(nsilent):
+                sid = ids[k]; k += 1
+                evs.append('U%d' % sid)
+                if rng.random() < 0.4:   # a proper prefix of a multi-byte type varint
+                    full = enc(rng.choice([0, 2, 3, 0x54, 0x21]), rng.choice([2, 4, 8]))
+                    evs.append('%d:c:%s' % (sid, full[:rng.randrange(1, len(full))].hex()))
+                if rng.random() < 0.3:
+                    evs.append('P')
+            ctl = ids[k]; k += 1
+            body = control_body(rng) if rng.random() < 0.5 else (frame(rng, 4, b'') + rng.choice([frame(rng, 7, enc(0)), ctl_frame(rng, 'D'), ctl_frame(rng, 'M'), b'']))
+            evs += stream_events(rng, ctl, anyform(rng, 0) + body, rng.choice(['-', '-', 'F']))
+            for _i in range(rng.randint(0, 3)):
+                kind = rng.choice(['unknown', 'encoder', 'decoder', 'control', 'push', 'none'])
+                d2 = stream_bytes(rng, kind)
+                evs += stream_events(rng, ids[k], d2, rng.choice(['-', 'F', 'R'])); k += 1
+            evs = with_polls(rng, evs, rng.choice([0.0, 0.0, 0.3]))
+            evs += ['P', 'P']
+            out.append(line(role, g, rng.choice([3, 4]), 'u', evs))
+        return out
+
+    def gen_burst(self, tier, rng, n):
+        """20..100 control frames delivered before ONE poll; the last event is a poll"""
+        out = []
+        for _ in range(n):
+            role = rng.choice('sc')
+            sid = peer_ids(role)[0]
+            nfr = rng.randint(20, 100)
+            kinds = ['U', 'U', 'M', 'C'] if role == 's' else ['U']
+            data = anyform(rng, 0) + frame(rng, 4, rng.choice(SETTINGS_PAYLOADS))
+            ids_g = sorted([rng.choice([0, 4, 8, 400]) for _i in range(3)], reverse=True)
+            for i in range(nfr):
+                if i in (nfr // 3, 2 * nfr // 3) and rng.random() < 0.6:
+                    data += frame(rng, 7, enc(ids_g.pop(0)))
+                else:
+                    data += ctl_frame(rng, rng.choice(kinds))
+            data += rng.choice([frame(rng, 7, enc(0)), ctl_frame(rng, 'D'), ctl_frame(rng, 'H2'), frame(rng, 4, b''), b'', frame(rng, 7, enc(800))])
+            evs = ['P', 'U%d' % sid]
+            for c in chunked(rng, data, rng.choice([1, 2, 5, 40])):
+                evs.append('%d:c:%s' % (sid, c.hex()))
+            if rng.random() < 0.3:
+                evs.append('%d:%s' % (sid, rng.choice(['F', 'R7'])))
+            evs.append('P')
+            if rng.random() < 0.3:
+                evs.append('P')
+            out.append(line(role, rng.choice([0, 1]), rng.choice([3, 4]), 'u', evs))
+        return out
+
+    def gen_finish(self, tier, rng, n):
+        """the grease stream's poll_finish stays Pending (Z) / the peer refuses the grease stream (S): frames keep being returned"""
+        out = []
+        for _ in range(n):
+            role = rng.choice('sc')
+            sid = peer_ids(role)[0]
+            gid = own_ids(role)[3]
+            pre = []
+            mode = rng.choice(['Z', 'Z', 'S', 'ZS'])
+            if 'Z' in mode:
+                pre.append('%d:Z%d' % (gid, rng.randint(1, 4)))
+            if 'S' in mode and rng.random() < 0.5:
+                pre.append('%d:S%d' % (gid, rng.choice([259, 0])))
+            frames = [frame(rng, 4, rng.choice(SETTINGS_PAYLOADS))]
+            for x in sorted([rng.choice([0, 4, 8, 12, 400]) for _i in range(rng.randint(1, 4))], reverse=True):
+                if rng.random() < 0.3:
+                    frames.append(ctl_frame(rng, 'U'))
+                if role == 's' and rng.random() < 0.4:
+                    frames.append(ctl_frame(rng, rng.choice('CM')))
+                frames.append(frame(rng, 7, enc(x)))
+            if rng.random() < 0.3:
+                frames.append(ctl_frame(rng, rng.choice(['D', 'S'])))
+            evs = pre + ['P', 'U%d' % sid, '%d:c:00' % sid]
+            for f in frames:
+                evs.append('%d:c:%s' % (sid, f.hex()))
+                if rng.random() < 0.75:
+                    evs.append('P')
+                if 'S' in mode and rng.random() < 0.2:
+                    evs.append('%d:S%d' % (gid, 259))
+                if rng.random() < 0.15:
+                    evs.append('%d:Z1' % gid)
+            evs += ['P', 'P']
+            out.append(line(role, 1, 4, 'u', evs))
+        return out
+
+    def gen_blocked(self, tier, rng, n):
+        """frames delivered while h3 cannot make progress on its OWN streams (build starved of credit / header budget; server
+        write-blocked in accept()'s shutdown(0)); the block is lifted at the end: everything delivered is then acted upon exactly
+        once and a complete violation shows"""
+        out = []
+        for _ in range(n):
+            role = rng.choice('sc')
+            own = own_ids(role)
+            ids = peer_ids(role)
+            rng.shuffle(ids)
+            sid = ids[0]
+            mode = rng.choice(['credit', 'budget', 'shutdown', 'shutdown']) if role == 's' else rng.choice(['credit', 'budget'])
+            tail_frames = []
+            for _i in range(rng.randint(0, 3)):
+                tail_frames.append(ctl_frame(rng, rng.choice(KINDS_OK + ['D', 'S', 'H2', 'U'])))
+            extra = []
+            for i in range(rng.randint(0, 2)):
+                kind = rng.choice(['unknown', 'encoder', 'control', 'none', 'push'])
+                extra.append(stream_events(rng, ids[i + 1], stream_bytes(rng, kind), rng.choice(['-', 'F', 'R'])))
+            ending = rng.choice([[], [], ['%d:F' % sid], ['%d:R9' % sid]])
+            if mode == 'shutdown':
+                # the control header takes exactly the budget (26 bytes without grease): the last GOAWAY cannot be written
+                pre = ['W%d:26' % own[0], 'W%d:1' % own[1], 'W%d:1' % own[2], 'P', 'U%d' % sid,
+                       '%d:c:%s' % (sid, (b'\x00' + frame(rng, 4, b'') + frame(rng, 7, enc(rng.choice([0, 4, 400])))).hex()), 'P']
+                mid = ['%d:c:%s' % (sid, f.hex()) for f in tail_frames] + ending
+                mid = interleave(rng, [mid] + extra)
+                mid = with_polls(rng, mid, 0.5) + ['P']
+                small = [] if rng.random() < 0.5 else ['W%d:%d' % (own[0], rng.choice([1, 2])), 'P']
+                post = small + ['W%d:1000000' % own[0], 'P', 'P', 'P']
+                out.append(line(role, 0, 3, '0', pre + mid + post))
+            else:
+                body = [frame(rng, 4, rng.choice(SETTINGS_PAYLOADS))] + tail_frames
+                st = ['U%d' % sid, '%d:c:00' % sid] + ['%d:c:%s' % (sid, f.hex()) for f in body] + ending
+                mid = with_polls(rng, interleave(rng, [st] + extra), 0.5) + ['P']
+                g = rng.choice([0, 1])
+                if mode == 'credit':
+                    cr = rng.choice([0, 1, 2])
+                    post = ['G%d' % (4 - cr), 'P', 'P', 'P']
+                    out.append(line(role, g, cr, 'u', ['P'] + mid + post))
+                else:
+                    post = ['W%d:1000000' % o for o in own] + ['P', 'P', 'P']
+                    out.append(line(role, g, 4, '0', ['P'] + mid + post))
+        return out
+
+    def gen_after_none(self, tier, rng, n):
+        """server: accept() has answered None after a GOAWAY and is called again: what the peer sends afterwards still counts"""
+        out = []
+        for _ in range(n):
+            role = 's'
+            ids = peer_ids(role)
+            rng.shuffle(ids)
+            sid = ids[0]
+            g0 = rng.choice([0, 4, 400])
+            evs = ['P', 'U%d' % sid, '%d:c:%s' % (sid, (b'\x00' + frame(rng, 4, rng.choice(SETTINGS_PAYLOADS)) + frame(rng, 7, enc(g0))).hex()), 'P']
+            later = []
+            for _i in range(rng.randint(1, 4)):
+                k = rng.choice(['G', 'G', 'U', 'M', 'C', 'D', 'S', 'H2', 'Gbad'])
+                f = frame(rng, 7, enc(rng.choice([0, g0, g0 + 4]))) if k == 'G' else ctl_frame(rng, k)
+                later.append('%d:c:%s' % (sid, f.hex()))
+            later += rng.choice([[], [], ['%d:F' % sid], ['%d:R3' % sid]])
+            extra = []
+            for i in range(rng.randint(0, 2)):
+                kind = rng.choice(['unknown', 'control', 'decoder', 'none'])
+                extra.append(stream_events(rng, ids[i + 1], stream_bytes(rng, kind), rng.choice(['-', 'F'])))
+            evs += with_polls(rng, interleave(rng, [later] + extra), 0.5) + ['P', 'P']
+            out.append(line(role, rng.choice([0, 1]), rng.choice([3, 4]), 'u', evs))
+        return out
+
     def cases(self, tier, rng):
         out = self.gen_hdr(tier, rng)
         q = tier == 'quick'
         out += self.gen_grease(tier, rng, 300 if q else 20000)
+        out += self.gen_many(tier, rng, 300 if q else 20000)
+        out += self.gen_burst(tier, rng, 150 if q else 6000)
+        out += self.gen_finish(tier, rng, 300 if q else 20000)
+        out += self.gen_blocked(tier, rng, 400 if q else 30000)
+        out += self.gen_after_none(tier, rng, 300 if q else 20000)
         out += self.gen_ctl(tier, rng, 2500 if q else 150000)
         out += self.gen_multi(tier, rng, 1500 if q else 100000)
         return out
@@ -396,11 +565,16 @@ class P(Property):
         return ' '.join(t for t in out.split() if not t.startswith('acted='))
 
     @staticmethod
-    def settled(case, kv, head=''):
-        # everything delivered has been looked at: the build is over and the last event is a poll
-        # (for a server that answered None the spec column is about the events up to that poll)
+    def settled(case, kv, sp, head=''):
+        # everything delivered has been looked at: the build is over, the driver is not write-blocked in the server's
+        # shutdown(0) (spec column `blocked`, taken from the model's phase: frames are then delayed, not lost) and the
+        # last event is a poll
         evs = case.split('ev=', 1)[1].split(',')
-        return kv.get('ph') == 'run' and (evs[-1] == 'P' or head.startswith('ok none'))
+        ok = kv.get('ph') == 'run' and sp.get('blocked', '0') == '0' and evs[-1] == 'P'
+        # the poll at which a blocked shutdown(0) completes answers None without looking at the peer again: one more poll
+        if ok and head.startswith('ok none'):
+            ok = evs[-2:] == ['P', 'P']
+        return ok
 
     def spec_ok(self, case, out, spec):
         if spec is None:
@@ -413,7 +587,7 @@ class P(Property):
             return False
         lst = lambda s: [] if s in ('-', '') else s.replace(';', ',').split(',')
         hard, soft = lst(sp['hard']), lst(sp['soft'])
-        settled = self.settled(case, kv, head)
+        settled = self.settled(case, kv, sp, head)
         err = None
         if head.startswith('err'):
             parts = head.split()[1].split(':')
